@@ -221,6 +221,7 @@ static H10 shrink10(const H10& h0, YR_RULES* rules, const Diff10& d0) {
 struct Val { char type = 0; int64_t i = 0; double f = 0; std::string s; bool null_s = false; };
 typedef std::map<std::string, Val> Env;
 static const char* C20_BUFS[2] = {"HEAD_EXTMARK of_one tail", "nothing of interest in here at all"};
+static const char* const* c20_bufs() { return C20_BUFS; }
 // what a LITERAL quantifier gives for `N of ($a,$b,$c)` on each buffer (externals must behave like literals of the same
 // type): measured once from literal twin rules, not assumed
 static bool g_of_literal[5][2];
@@ -235,12 +236,98 @@ static const char* C20_RULES =
   "rule x_float { condition: ext_f > 2.0 and ext_f < 3.0 }\nrule x_str { condition: ext_s contains \"needle\" and ext_s matches /ne+dle$/ }\n"
   "rule x_at { strings: $a = \"EXTMARK\" condition: $a at ext_off }\nrule x_in { strings: $a = \"EXTMARK\" condition: $a in (ext_off..ext_off + 2) }\n"
   "rule x_of { strings: $a = \"of_one\" $b = \"of_three\" $c = \"EXTMARK\" condition: ext_n of them }\n"
-  "rule x_loop { condition: for any i in (0..ext_n) : ( i == 2 ) }\nrule x_cmp_ext { condition: ext_i > ext_off }\nrule x_str2 { condition: ext_t contains \"needle\" }\nrule x_streq { condition: ext_s == ext_t }\n";
-static const char* C20_NAMES[] = {"x_int", "x_int_arith", "x_bool", "x_float", "x_str", "x_at", "x_in", "x_of", "x_loop", "x_cmp_ext", "x_str2", "x_streq"};
-static const char* IDS[] = {"ext_i", "ext_b", "ext_f", "ext_s", "ext_off", "ext_n", "ext_t"};
-static const char ID_TYPES[] = {'i', 'b', 'f', 's', 'i', 'i', 's'};
-static const int NIDS = 7;
+  "rule x_loop { condition: for any i in (0..ext_n) : ( i == 2 ) }\nrule x_cmp_ext { condition: ext_i > ext_off }\nrule x_str2 { condition: ext_t contains \"needle\" }\nrule x_streq { condition: ext_s == ext_t }\nrule x_modname { condition: math == 42 }\n";
+static const char* C20_NAMES[] = {"x_int", "x_int_arith", "x_bool", "x_float", "x_str", "x_at", "x_in", "x_of", "x_loop", "x_cmp_ext", "x_str2", "x_streq", "x_modname"};
+// `math` is deliberately the name of a built-in module that the rules do not import: externals and module objects share one table inside a scanner
+static const char* IDS[] = {"ext_i", "ext_b", "ext_f", "ext_s", "ext_off", "ext_n", "ext_t", "math"};
+static const char ID_TYPES[] = {'i', 'b', 'f', 's', 'i', 'i', 's', 'i'};
+static const int NIDS = 8;
 
+
+// ---- literal twins ("externals behave in conditions like literals of the same type"): every t_* rule below is
+// also compiled with each external textually replaced by a literal of its current value; the twin's verdict on the
+// same buffer is the expectation.  The operators are the ones the hand-written model above does not cover.
+struct TwinRule { const char* name; const char* strings; const char* cond; };
+static const TwinRule TWINS[] = {
+  {"t_countin", "$a = \"EXTMARK\"", "#a in (ext_off..ext_off + 20) == 1"},
+  {"t_ofin",    "$a = \"of_one\" $b = \"of_three\" $c = \"EXTMARK\"", "ext_n of them in (0..ext_off + 8)"},
+  {"t_ofat",    "$a = \"EXTMARK\" $b = \"of_three\"", "any of them at ext_off"},
+  {"t_forof",   "$a = \"of_one\" $b = \"of_three\" $c = \"EXTMARK\"", "for ext_n of them : ( # >= 1 )"},
+  {"t_enum",    "", "for any i in (ext_i, ext_off, 3) : ( i == 5 )"},
+  {"t_bits",    "", "(ext_i & 0xF) ^ ext_off == 7 or (ext_i >> ext_off) == 0 or ~ext_i == -43 or (ext_off | 1) == ext_off"},
+  {"t_cmp",     "", "ext_i <= ext_off or ext_i >= 100 or ext_off != 5"},
+  {"t_mod",     "", "ext_i % 5 == 2 and ext_i \\ 3 == 14 or ext_off - ext_n < 2 or -ext_off == -7"},
+  {"t_dbl",     "", "ext_f <= 2.5 and ext_f * 2.0 >= 5.0 or ext_f \\ 2.0 == 1.375 or ext_f + ext_off > 12.0 or -ext_f < -9.0 or ext_f != 2.5 and ext_f - 0.5 == 0.0"},
+  {"t_strcmp",  "", "ext_s < ext_t or ext_s >= \"m\" and ext_t <= \"hay\""},
+  {"t_strops",  "", "ext_s startswith \"hay\" or ext_s iendswith \"DLE\" or ext_t icontains \"PLAIN\" or ext_t iequals \"NO\" or ext_s endswith \"end.\" or ext_t istartswith \"XX\""},
+  {"t_strre",   "", "ext_t matches /^(hay|x+) ?ne{1,2}dle/ or ext_s != ext_t and ext_s == \"\""},
+  {"t_uint",    "", "uint8(ext_off) == 0x45 or uint16(ext_off + 1) == 0x5458 or int8(ext_n) == 0x44"},
+  {"t_index",   "$a = \"EXTMARK\" $b = \"o\"", "@b[ext_n + 1] > ext_off or !a[ext_n + 1] == 7"},
+  {"t_fsize",   "", "filesize > ext_off * 3 and filesize - ext_off >= 20"},
+  {"t_bool",    "", "(ext_b and ext_off > 3) or (not ext_b and ext_n == 2)"},
+  {"t_defined", "", "defined ext_i and defined ext_s and not defined uint8(ext_off + 100)"},
+  {"t_neg",     "", "-ext_i < 0 and ext_i - 1 >= 41"},
+  // one rule per operator and a single reference to the string: a second `at` with another offset disables the
+  // fixed-offset optimisation that consumes the compile-time value of the offset expression
+  {"t_at_shr",  "$a = \"EXTMARK\"", "$a at (ext_i >> 3)"},
+  {"t_at_shl",  "$a = \"EXTMARK\"", "$a at (ext_off << 1) + 1"},
+  {"t_at_add",  "$a = \"EXTMARK\"", "$a at ext_off + ext_n"},
+  {"t_at_sub",  "$a = \"EXTMARK\"", "$a at ext_i - 37"},
+  {"t_at_mul",  "$a = \"EXTMARK\"", "$a at ext_off * 2 + 1"},
+  {"t_at_mod",  "$a = \"EXTMARK\"", "$a at ext_i % 37"},
+  {"t_at_div",  "$a = \"EXTMARK\"", "$a at ext_i \\ 8"},
+  {"t_at_or",   "$a = \"EXTMARK\"", "$a at (ext_off | 4) & 7"},
+  {"t_at_xor",  "$a = \"EXTMARK\"", "$a at (ext_n ^ 7)"},
+  {"t_at_not",  "$a = \"EXTMARK\"", "$a at ~ext_i + 48"},
+  {"t_at_neg",  "$a = \"EXTMARK\"", "$a at -ext_i + 47"},
+};
+static const int NTWINS = sizeof(TWINS) / sizeof(TWINS[0]);
+static std::string literal_of(const Val& v) {
+  char b[64];
+  if (v.type == 'i') { snprintf(b, sizeof b, "(%lld)", (long long) v.i); return b; }
+  if (v.type == 'b') return v.i ? "true" : "false";
+  if (v.type == 'f') { snprintf(b, sizeof b, "%.17g", v.f); std::string t = b; if (t.find('.') == std::string::npos) t += ".0"; return "(" + t + ")"; }
+  std::string o = "\""; for (unsigned char c : v.s) { if (c == '"' || c == '\\') { o += '\\'; o += (char) c; } else if (c < 0x20 || c >= 0x7f) { snprintf(b, sizeof b, "\\x%02x", c); o += b; } else o += (char) c; } o += '"'; return o;
+}
+static std::string twin_rule_source(int k, bool literal, const Env* env, std::string* used = nullptr) {
+  std::string cond = TWINS[k].cond;
+  if (literal || used) {   // one pass over identifiers, so that a substituted string value is never rescanned
+    std::string out; size_t p = 0;
+    while (p < cond.size()) {
+      if (isalpha((unsigned char) cond[p]) || cond[p] == '_') { size_t e = p; while (e < cond.size() && (isalnum((unsigned char) cond[e]) || cond[e] == '_')) e++; std::string id = cond.substr(p, e - p); auto it = env->find(id);
+        if (it != env->end() && used) { *used += id; *used += '='; *used += literal_of(it->second); *used += '|'; }
+        out += it == env->end() || !literal ? id : literal_of(it->second); p = e; }
+      else if (cond[p] == '"') { size_t e = cond.find('"', p + 1); out += cond.substr(p, e - p + 1); p = e + 1; }
+      else out += cond[p++];
+    }
+    cond = out;
+  }
+  return std::string("rule ") + TWINS[k].name + " {" + (*TWINS[k].strings ? std::string(" strings: ") + TWINS[k].strings : std::string()) + " condition: " + cond + " }\n";
+}
+static std::string twin_source(bool literal, const Env* env) { std::string src; for (int k = 0; k < NTWINS; k++) src += twin_rule_source(k, literal, env); return src; }
+static int64_t g_twin_compiles = 0, g_twin_hits = 0;
+static std::set<std::string> observed_verdicts(const std::string& trace);
+// expectation for the t_* rules under `env` on buffer `buf`: each rule's literal twin, compiled alone, cached by the
+// values of the externals that rule mentions
+static std::set<std::string> twin_verdicts(const Env& env, int buf) {
+  static std::map<std::string, bool> cache;
+  std::set<std::string> m;
+  for (int k = 0; k < NTWINS; k++) {
+    std::string key = std::to_string(k) + "|" + std::to_string(buf) + "|"; std::string src = twin_rule_source(k, true, &env, &key);
+    auto it = cache.find(key);
+    if (it == cache.end()) {
+      YR_RULES* r = compile_simple(src);
+      if (!r) { fprintf(stderr, "harness: literal twin does not compile:\n%s\n", src.c_str()); abort(); }
+      g_twin_compiles++;
+      Recorder rec; const char* B = C20_BUFS[buf];
+      yr_rules_scan_mem(r, (const uint8_t*) B, strlen(B), 0, recorder_callback, &rec, 0);
+      yr_rules_destroy(r);
+      it = cache.insert({key, observed_verdicts(rec.text).count(TWINS[k].name) > 0}).first;
+    } else g_twin_hits++;
+    if (it->second) m.insert(TWINS[k].name);
+  }
+  return m;
+}
 static bool model_str_ok(const std::string& s) {
   if (s.find("needle") == std::string::npos) return false;
   // /ne+dle$/ : ... n e+ d l e at the very end
@@ -260,6 +347,8 @@ static std::set<std::string> model_verdicts(const Env& env, int buf = 0) {
   if (I("ext_i") > off) m.insert("x_cmp_ext");
   if (env.at("ext_t").s.find("needle") != std::string::npos) m.insert("x_str2");
   if (env.at("ext_s").s == env.at("ext_t").s) m.insert("x_streq");
+  if (I("math") == 42) m.insert("x_modname");
+  for (auto& t : twin_verdicts(env, buf)) m.insert(t);
   return m;
 }
 
@@ -317,7 +406,8 @@ static std::set<std::string> observed_verdicts(const std::string& trace) {
   return m;
 }
 static std::string verdict_diff(const std::set<std::string>& exp, const std::set<std::string>& got) {
-  std::string d; for (const char* n : C20_NAMES) { bool e = exp.count(n), g = got.count(n); if (e != g) { if (!d.empty()) d += ","; d += std::string(n) + (e ? ":missed" : ":spurious"); } } return d;
+  std::string d; std::vector<const char*> names(std::begin(C20_NAMES), std::end(C20_NAMES)); for (int k = 0; k < NTWINS; k++) names.push_back(TWINS[k].name);
+  for (const char* n : names) { bool e = exp.count(n), g = got.count(n); if (e != g) { if (!d.empty()) d += ","; d += std::string(n) + (e ? ":missed" : ":spurious"); } } return d;
 }
 
 static Diff20 run_h20(const H20& h, Stats* st) {
@@ -338,7 +428,7 @@ static Diff20 run_h20(const H20& h, Stats* st) {
   }
   for (int k = 0; k < NIDS; k++) if (!C.count(IDS[k])) { Val v; v.type = ID_TYPES[k]; v.i = k == 5 ? 2 : k == 4 ? 5 : 42; v.f = 2.5; v.s = "hay needle"; if (v.type == 'b') v.i = 1; api_define(0, comp, IDS[k], v.type, v); C[IDS[k]] = v; }
   if (d.op >= 0) { yr_compiler_destroy(comp); return d; }
-  if (yr_compiler_add_string(comp, C20_RULES, NULL) != 0) { yr_compiler_destroy(comp); fail(opi, "harness", "probe rules do not compile", ""); return d; }
+  if (yr_compiler_add_string(comp, (std::string(C20_RULES) + twin_source(false, nullptr)).c_str(), NULL) != 0) { yr_compiler_destroy(comp); fail(opi, "harness", "probe rules do not compile", ""); return d; }
   YR_RULES* rules = NULL; yr_compiler_get_rules(comp, &rules); yr_compiler_destroy(comp);
   std::vector<YR_RULES*> all_rules{rules};
   Env R = C; std::vector<YR_SCANNER*> scs; std::vector<Env> S;
@@ -448,7 +538,7 @@ int main(int argc, char** argv) {
   uint64_t seed = args.num("seed", 1); int64_t from = args.num("from", 0);
   std::string mode = args.get("mode", "c10");
   double budget = (double) args.num("budget", thorough ? 1200 : 60), t0 = now_s();
-  int64_t n = args.num("histories", mode == "c10" ? (thorough ? 40000 : 640) : (thorough ? 400000 : 12000));
+  int64_t n = args.num("histories", mode == "c10" ? (thorough ? 40000 : 640) : (thorough ? 400000 : 7000));
   std::set<std::string> reported;
   for (int64_t i = from; i < n; i++) {
     if (!sh.mine(i)) continue;
@@ -488,6 +578,7 @@ int main(int argc, char** argv) {
     { J e = J::obj(); e.set("t", "end"); emit_line(e); }
     if (st.hashes.size() > 2000) st.flush(false);
   }
+  if (g_twin_compiles) { st.c["literal_twin.compiled"] += g_twin_compiles; st.c["literal_twin.cache_hits"] += g_twin_hits; }
   st.flush();
   yr_finalize();
   return 0;
